@@ -61,6 +61,16 @@ CHECKS["C17"] = ("devdfs (worker subprocesses)", "fault_enumeration",
     "Kernel model; signals raised synchronously on the polling thread; peer answers DA1 and keeps draining (fairness); cross-source event order within one select round is not judged.",
     "DESIGN.md §C17")
 
+CHECKS["C02"] = ("sweep (worker subprocesses)", "exploration",
+    "exhaustive enumeration of byte strings, UTF-8 lattice, hostile-token lattice and edit neighbourhoods in worker subprocesses",
+    "Every byte string up to length 2 (3) over all 256 bytes for the three decoders, the UTF-8 boundary lattice (every lead byte x boundary continuation bytes) and every Unicode scalar value, "
+    "36 sequence templates x a 16-value hostile number lattice for every numeric field plus ~120 fixed malformed tokens, and all single (double) byte edits of 130 base tokens are fed whole, "
+    "at every cut, byte by byte and with empty reads (all partitions up to length 5). Oracle: no panic, no abort or stall of the worker process (attributed to the exact input through a memory-mapped progress record "
+    "and confirmed in a fresh process), decode returns None once input is exhausted and keeps doing so, every char is a scalar value, raw events are non-empty, and every numeric field of a recognised event is the exact "
+    "transmitted value, the type's maximum, or the sequence is unrecognised. Strings over the representative alphabet up to length 4-5 under all partitions run through the same driver in C03.",
+    "The lattices are chosen from the branch structure of the decoders; values between lattice points and longer random garbage are not enumerated.",
+    "DESIGN.md §C02")
+
 PENDING = {}
 ALL = ["C%02d" % i for i in range(1, 21)]
 
